@@ -128,6 +128,12 @@ theorem acquire_partial {w : World} {p : Pid} {pl : Nat} {x : Pool} (hi : PoolIn
       inUseOf w1 pl = inUseOf w pl + (x.cap - x.inUse) :=
   poolLoop_partial hi hp hx rem ini hav
 
+/-- **acquire_ok for a whole call** (`AcquireRun`: the call as the sequence of its passes, anything — including a
+    preemption of the waiting caller — happening in between): the passes together hand the caller at most the claim, and
+    exactly the claim `n` when the call returns success -/
+theorem acquire_ok_whole_call {p : Pid} {pl n ini m : Nat} {sig : Int} (h : AcquireRun p pl n ini m sig) (hn : 0 < n) :
+    m ≤ n ∧ (sig = sigSuccess → m = n) := h.exact hn
+
 /-- **acquire_intr**: an acquire or preempt that is interrupted (any signal other than success) runs the rollback:
     afterwards the caller holds exactly what it held before the call (`ini`, remembered in the frame) — or what is left of
     it if it was itself preempted in that same instant (`min`), and nothing if it held nothing before; the amount in
